@@ -283,6 +283,9 @@ impl Linker {
         let mut layout_rules_builder = LayoutRulesBuilder::default();
 
         let auxiliary = input_data::AuxiliaryFiles::new(args, &self.inputs_arena)?;
+        file_loader
+            .loaded_files
+            .extend(auxiliary.input_files.iter().copied());
 
         let mut symbol_db = symbol_db::SymbolDb::new(args, output_kind, &auxiliary, &self.herd)?;
         let mut per_symbol_flags = PerSymbolFlags::new();
